@@ -59,6 +59,18 @@ func (op *FDOperator) Control(event PollEvent) error {
 	return op.poll.Control(op, event)
 }
 
+// detach deregisters the operator from its poll like Control(PollDetach) and reports
+// whether this call was the one that did it.
+func (op *FDOperator) detach() (done bool) {
+	if atomic.AddInt32(&op.detached, 1) > 1 {
+		return false
+	}
+	if err := op.poll.Control(op, PollDetach); err != nil {
+		logger.Printf("NETPOLL: poller detach operator failed: %v", err)
+	}
+	return true
+}
+
 func (op *FDOperator) Free() {
 	op.poll.Free(op)
 }
